@@ -27,6 +27,8 @@ claimed = {
  'C15': ('exploration','twin runs: reduced optional-index combination (incl. node-fetch path under batch cuts, reordered replies, retried fetches) vs all indexes, projected dump equal','twin-run oracle'),
  'C16': ('exploration','every open/update on a generated valid chain (adversarial witness and OP_RETURN bytes, every index flag combination) returns Ok and no thread panics','no-error/no-panic oracle'),
  'C17': ('exploration','script->unspent outpoints from the model vs address multimap, get_address_info and recorded script/value','reference-model oracle'),
+ 'C18': ('exploration','the real explorer router driven in-process at quiescent points: every inscription, inscribed/runic output, inscribed sat and block on the JSON and recursive routes, all pages, negative sat indices; fields compared with stored entries, the reference model and creation order','response-vs-model oracle'),
+ 'C19': ('exploration','content, undelegated-content, preview and sat-relative content routes for every inscription under server options {csp origin, decompress, hidden set}; body, content type, encoding rule, CSP on every response, hidden bodies never served, relative content never immutable','response-vs-chain-data oracle'),
  'C37': ('exploration','fold of the emitted event stream vs the index after every update','history-replay oracle'),
 }
 checks=[]
@@ -58,8 +60,6 @@ pure = {
  'C36':'Settings::merge is a pure function of (options, env map, config file contents)',
 }
 pending = {
- 'C18':'not claimed yet: explorer tier under construction (DESIGN §7 C18)',
- 'C19':'not claimed yet: explorer tier under construction (DESIGN §7 C19)',
  'C21':'not claimed yet: wallet tier not built (DESIGN §7 C21)',
  'C22':'not claimed yet: wallet tier not built (DESIGN §7 C22)',
  'C23':'not claimed yet: wallet tier not built (DESIGN §7 C23)',
